@@ -116,11 +116,36 @@ fn drive<D: DecisionDiagram<State = St> + Default + Drawable>(m: &Model, ddname:
     }
 }
 
+/// SimpleCache that remembers every update (inputs mode only)
+struct CuCache {
+    inner: SimpleCache<St>,
+    log: std::sync::Mutex<Vec<(usize, St, isize, bool)>>,
+}
+impl Cache for CuCache {
+    type State = St;
+    fn initialize(&mut self, p: &dyn Problem<State = St>) {
+        self.inner.initialize(p)
+    }
+    fn get_threshold(&self, s: &St, d: usize) -> Option<Threshold> {
+        self.inner.get_threshold(s, d)
+    }
+    fn update_threshold(&self, s: Arc<St>, d: usize, v: isize, e: bool) {
+        self.log.lock().unwrap().push((d, (*s).clone(), v, e));
+        self.inner.update_threshold(s, d, v, e)
+    }
+    fn clear_layer(&self, d: usize) {
+        self.inner.clear_layer(d)
+    }
+    fn clear(&self) {
+        self.inner.clear()
+    }
+}
+
 /// spec -> impl: compile the inputs enumerated by TLC on DD.tla with the real compilers and report the outcomes in the model's shape
 fn replay_inputs(file: &str, outp: &str) {
     let inputs: Vec<serde_json::Value> = serde_json::from_str(&std::fs::read_to_string(file).unwrap()).unwrap();
     let mut outs = vec![];
-    let cache = EmptyCache::new();
+    let mut cache = CuCache { inner: SimpleCache::default(), log: std::sync::Mutex::new(vec![]) };
     let dom = EmptyDominanceChecker::default();
     let cutoff = NoCutoff;
     let mut lel: Mdd<St, { LAST_EXACT_LAYER }> = Mdd::new();
@@ -146,6 +171,10 @@ fn replay_inputs(file: &str, outp: &str) {
         };
         let lb = i["lb"].as_i64().unwrap();
         let lb = if lb <= NEG_INF { isize::MIN } else { lb as isize };
+        // a fresh, empty threshold cache per compilation: what the diagram writes into it is part of the outcome
+        cache.inner = SimpleCache::default();
+        cache.inner.initialize(&m);
+        cache.log.lock().unwrap().clear();
         let input = CompilationInput { comp_type: ty, max_width: i["width"].as_u64().unwrap() as usize, problem: &m, relaxation: &m, ranking: &m, cutoff: &cutoff, cache: &cache, dominance: &dom, residual: &root, best_lb: lb };
         let mut cs = vec![];
         let (exact, bv, bev) = if i["cut"] == "lel" {
@@ -169,7 +198,10 @@ fn replay_inputs(file: &str, outp: &str) {
         };
         let mut csj: Vec<serde_json::Value> = cs.iter().map(|c| json!({"x": m.xjson(c.state.x), "depth": c.depth, "value": num(c.value), "ub": num(c.ub)})).collect();
         csj.sort_by_key(|v| v.to_string());
-        outs.push(json!({"exact": exact, "bv": onum(bv), "bev": onum(bev), "cs": csj}));
+        let mut cu: Vec<serde_json::Value> = cache.log.lock().unwrap().iter().map(|(d, st, v, e)| json!({"d": d, "x": m.xjson(st.x), "v": num(*v), "e": e})).collect();
+        cu.sort_by_key(|v| v.to_string());
+        cu.dedup();
+        outs.push(json!({"exact": exact, "bv": onum(bv), "bev": onum(bev), "cs": csj, "cu": cu}));
     }
     std::fs::write(outp, serde_json::to_string(&outs).unwrap()).unwrap();
 }
